@@ -308,6 +308,30 @@ Proof.
       cbn [holdsn ptr] in Hc. lia. }
     destruct (rel_make true _ _ ls (pnext s) esize R ltac:(lia) (inv_fresh _ _ I) E) as [ls' [E1 R1]].
     exists ls'. split; [exact E1|]. split; [exact R1|split; [exact (inv_make _ _ _ I Hn E)|lia]].
+  - (* PResetNewRe, owning: new object made, destroyed by the nested reset, then the old one dropped *)
+    assert (H1 : count ptr (pvars s) b = 1) by (apply (count_owned ptr _ (pnext s) i _ b I Heqo); reflexivity).
+    set (mid := fun b' => count ptr (pvars s) b' + if Nat.eqb (pnext s) b' then 1 else 0).
+    destruct (rel_make true _ mid ls (pnext s) esize R ltac:(lia) (inv_fresh _ _ I) ltac:(intros; reflexivity)) as [ls1 [E1 R1]].
+    assert (Im : inv mid (S (pnext s))) by (apply (inv_make _ _ _ I Hn); intros; reflexivity).
+    assert (Hm1 : mid (pnext s) = 1) by (unfold mid; rewrite Nat.eqb_refl, (inv_fresh _ _ I); lia).
+    assert (Eb : forall b', count ptr (pvars s) b' + (if Nat.eqb (pnext s) b' then 1 else 0) = mid b') by (intros; reflexivity).
+    destruct (rel_drop true _ _ ls1 (S (pnext s)) (pnext s) R1 Im Hm1 Eb) as [ls2 [E2 R2]].
+    assert (I2 : inv (count ptr (pvars s)) (S (pnext s))) by exact (inv_drop _ _ _ _ Im Eb).
+    assert (E : forall b', count ptr (wr (pvars s) i (Live (mk_uptr None))) b' + (if Nat.eqb b b' then 1 else 0) = count ptr (pvars s) b').
+    { intros b'. pose proof (count_wr ptr _ _ (Live (mk_uptr None)) _ b' (live_at_Some _ _ _ Heqo)) as Hc. cbn [holdsn ptr] in Hc. lia. }
+    destruct (rel_drop true _ _ ls2 (S (pnext s)) b R2 I2 H1 E) as [ls3 [E3 R3]].
+    exists ls3. split.
+    + change ([EAlloc (pnext s) esize; EConstruct (pnext s, 0)] ++ drop_evs (pnext s) ++ drop_evs b)
+        with (make_evs true (pnext s) esize ++ drop_evs' true (pnext s) ++ drop_evs' true b).
+      rewrite ev_run_app, E1, ev_run_app, E2. exact E3.
+    + split; [exact R3|split; [exact (inv_drop _ _ _ _ I2 E)|lia]].
+  - (* PResetNewRe, null *)
+    assert (E : forall b', count ptr (wr (pvars s) i (Live (mk_uptr (Some (pnext s))))) b' =
+                           count ptr (pvars s) b' + if Nat.eqb (pnext s) b' then 1 else 0).
+    { intros b'. pose proof (count_wr ptr _ _ (Live (mk_uptr (Some (pnext s)))) _ b' (live_at_Some _ _ _ Heqo)) as Hc.
+      cbn [holdsn ptr] in Hc. lia. }
+    destruct (rel_make true _ _ ls (pnext s) esize R ltac:(lia) (inv_fresh _ _ I) E) as [ls' [E1 R1]].
+    exists ls'. split; [exact E1|]. split; [exact R1|split; [exact (inv_make _ _ _ I Hn E)|lia]].
   - (* PRelease, owning: the caller reads, destroys and frees *)
     assert (H1 : count ptr (pvars s) b = 1) by (apply (count_owned ptr _ (pnext s) i _ b I Heqo); reflexivity).
     assert (E : forall b', count ptr (wr (pvars s) i (Live (mk_uptr None))) b' + (if Nat.eqb b b' then 1 else 0) = count ptr (pvars s) b').
